@@ -1185,6 +1185,8 @@ type (
 		socketReadErrorOnce sync.Once
 
 		rd atomic.Value // read deadline for Accept()
+
+		chDeadlineEvent chan struct{} // notify blocked Accept() calls of a deadline change
 	}
 )
 
@@ -1406,23 +1408,51 @@ func (l *Listener) Accept() (net.Conn, error) {
 
 // AcceptKCP accepts a KCP connection
 func (l *Listener) AcceptKCP() (*UDPSession, error) {
+	var timer *time.Timer
 	var timeout <-chan time.Time
-	if tdeadline, ok := l.rd.Load().(time.Time); ok && !tdeadline.IsZero() {
-		timer := time.NewTimer(time.Until(tdeadline))
-		defer timer.Stop()
+	var armed time.Time // the deadline this call has armed (zero: none)
+	defer func() {
+		if timer != nil {
+			timer.Stop()
+		}
+	}()
 
-		timeout = timer.C
+	for {
+		// (re-)arm the deadline: it may change while we are blocked
+		armed = time.Time{}
+		if timer != nil {
+			timer.Stop()
+			timer, timeout = nil, nil
+		}
+		if tdeadline, ok := l.rd.Load().(time.Time); ok && !tdeadline.IsZero() {
+			armed = tdeadline
+			timer = time.NewTimer(time.Until(tdeadline))
+			timeout = timer.C
+		}
+
+		select {
+		case <-timeout:
+			return nil, errors.WithStack(errTimeout)
+		case c := <-l.chAccepts:
+			return c, nil
+		case <-l.chDeadlineEvent:
+			// a deadline change must reach every blocked Accept, not only
+			// the one that received this event: pass it on
+			if tdeadline, _ := l.rd.Load().(time.Time); !tdeadline.Equal(armed) {
+				l.notifyDeadlineEvent()
+			}
+		case <-l.chSocketReadError:
+			return nil, l.socketReadError.Load().(error)
+		case <-l.die:
+			return nil, errors.WithStack(io.ErrClosedPipe)
+		}
 	}
+}
 
+func (l *Listener) notifyDeadlineEvent() {
 	select {
-	case <-timeout:
-		return nil, errors.WithStack(errTimeout)
-	case c := <-l.chAccepts:
-		return c, nil
-	case <-l.chSocketReadError:
-		return nil, l.socketReadError.Load().(error)
-	case <-l.die:
-		return nil, errors.WithStack(io.ErrClosedPipe)
+	case l.chDeadlineEvent <- struct{}{}:
+	default:
 	}
 }
 
@@ -1436,6 +1466,7 @@ func (l *Listener) SetDeadline(t time.Time) error {
 // SetReadDeadline implements the Conn SetReadDeadline method.
 func (l *Listener) SetReadDeadline(t time.Time) error {
 	l.rd.Store(t)
+	l.notifyDeadlineEvent()
 	return nil
 }
 
@@ -1538,6 +1569,7 @@ func serveConn(block BlockCrypt, dataShards, parityShards int, conn net.PacketCo
 	l.parityShards = parityShards
 	l.block = block
 	l.chSocketReadError = make(chan struct{})
+	l.chDeadlineEvent = make(chan struct{}, 1)
 	go l.monitor()
 	return l, nil
 }
